@@ -158,27 +158,35 @@ def run(ctx):
     ctx.check(has_value("halfmove_clock", lambda x: x == ("get", "halfmove_clock", board)), "from_board:halfmove", "half-move clock is not copied from the board", loc(fb))
     ctx.check(has_value("fullmove_number", lambda x: x == ("get", "fullmove_number", board)), "from_board:fullmove", "full-move number is not copied from the board", loc(fb))
 
-    def ep_ok(x):
-        if not (x[0] == "call" and x[1].endswith("::map") and x[2][0] == ("get", "en_passant", board)):
-            return False
-        cl = x[2][1]
-        cb = f.bodies.get(cl[1]) if cl[0] == "closure" else None
-        if cb is None:
-            return False
-        cps = sym.SymExec(f, cb).run()
-        r = L.lift(cps[0].ret) if len(cps) == 1 and cps[0].ret else None
-        if not (r and r[0] == "sq" and r[1][0] == "param"):
-            return False
-        # the captured rank: 3rd relative to the side that just moved == relrank(5, side to move)
-        up = cl[2]
-        if len(up) != 1 or up[0][0] != "ptr":
-            return False
-        for p in ps:
-            v = p.store.get(up[0][1])
-            if v is not None and L.lift(v) == ("relrank", 5, ("get", "side_to_move", board)):
-                return True
-        return False
-    ctx.check(has_value("en_passant", ep_ok), "from_board:en-passant-canonical-rank",
+    # en passant: per path, None stays None and Some(file) becomes the square (file, 3rd rank relative to the side
+    # that just moved) == (file, relrank(5, side to move)); `opt.map(..)` and a hand-written match read the same
+    EPB = ("get", "en_passant", board)
+    want_some = ("sq", ("field", ("downcast", EPB, "Some"), "0"), ("relrank", 5, ("get", "side_to_move", board)))
+    ep_paths = 0
+    ep_good = True
+    for p in ps:
+        st = p.ret if p.end == "return" else None
+        if st is None:
+            continue
+        dv = None
+        for c in p.conds:
+            if L.lift(c[0]) == ("discr", EPB) and isinstance(c[1], int):
+                dv = c[1]
+        v = st
+        val = None
+        while isinstance(v, tuple) and v and v[0] == "with":
+            if v[2] == ("f", "en_passant") and val is None:
+                val = L.lift(v[3])
+            v = v[1]
+        ep_paths += 1
+        if dv == 1:
+            okp = val is not None and val[0] == "agg" and val[2] == "Some" and dict(val[4]).get("0") == want_some
+        elif dv == 0:
+            okp = val is not None and val[0] == "agg" and val[2] == "None"
+        else:
+            okp = val == EPB and False
+        ep_good = ep_good and okp
+    ctx.check(ep_good and ep_paths >= 2, "from_board:en-passant-canonical-rank",
               "the en-passant square is not (file, 3rd rank relative to the side that just moved) of the board", loc(fb), sample={"ep": "file -> Square::new(file, Third.relative_to(!stm))"})
     EC, EP_ = ("each", COLOR), ("each", PIECE)
 
